@@ -43,7 +43,7 @@ fn targeted(rng: &mut Rng, b: &mut Vec<u8>) -> &'static str {
         0 => {
             // the mini stream's length
             let cur = rd32(b, ent_off(0) + 120);
-            let v = match rng.below(5) { 0 => cur + 64, 1 => cur.saturating_sub(64), 2 => cur + 64 * 8, 3 => 0, _ => cur * 2 + 64 };
+            let v = match rng.below(5) { 0 => cur.wrapping_add(64), 1 => cur.saturating_sub(64), 2 => cur.wrapping_add(64 * 8), 3 => 0, _ => cur.wrapping_mul(2).wrapping_add(64) };
             wr32(b, ent_off(0) + 120, v);
             "root-len"
         }
